@@ -31,7 +31,7 @@ Definition run_rr (cfg : config) (progs : list (list act)) (rounds : nat) : worl
   run cfg (round_robin (List.length progs) rounds) (init progs).
 
 (* ------------------------------------------------------------------ witnesses for the code as it was *)
-Definition cfg_guard_only : config := {| keep_guard := true; jit_box_safepoint := false |}.
+Definition cfg_guard_only : config := {| keep_guard := true; jit_box_safepoint := false; spawn_locked := false |}.
 
 (* F18: two concurrent global updates *)
 Definition f18_progs : list (list act) := [[AUpdate]; [AUpdate]].
